@@ -416,6 +416,50 @@ def apply(F, S):
         S.ok("U6", "no f32 in any local, field or cast", fns=len(F.fns))
 
 
+def shift_clause(F, rep):
+    import fieldclass
+    import rules_c01
+    import rules_c09
+    import shiftweight as sw
+    from rules_c09 import _Map
+    S = Sink(rep)
+    # premises for the leaf indicators: weighted means with weights summing to one, selections, deviations from the window mean
+    m = _Map(rep, {"I1": "U7", "I2": "U7", "I3": "U7", "I4": "U7", "I5": "U7", "I6": "U7", "I7": "U7", "L0": "U7", "N8": "U7"})
+    try:
+        rules_c01.apply(F, m)
+        rules_c01.extreme_unit(F, m, "Minimum", "I6")
+        rules_c01.extreme_unit(F, m, "Maximum", "I7", transform=mirror)
+        rules_c09.apply(F, m)
+    except (symex.Unsupported, KeyError, IndexError, TypeError, AttributeError) as e:
+        Sink.bad(m, "U7", "unrecognised", "window-invariants", "UNRECOGNISED idiom while establishing the premises of the shift clause: %r" % (e,))
+    classes, _ = fieldclass.classify_fields(F)
+    outw = {"TrueRange": 0, "AverageTrueRange": 0, "FastStochastic": 0}
+    for struct in sw.ORDER:
+        want = sw.EXPECTED[struct]
+        try:
+            res = sw.analyse(F, struct, classes, outw)
+        except symex.Unsupported as e:
+            S.bad("U7", "unrecognised", struct, "UNRECOGNISED idiom while typing %s for the shift clause: %s" % (struct, e))
+            continue
+        if not res:
+            S.bad("U7", "anchor", struct, "%s has no Next impl" % struct)
+        for lab, (out, why) in sorted(res.items()):
+            if out is None:
+                S.bad("U7", "shift-state", lab, "%s: %s" % (lab, why))
+                continue
+            for fld, w in sorted(out.items()):
+                exp = want[fld] if isinstance(want, dict) else want
+                if isinstance(want, dict) and fld not in want:
+                    continue
+                name = "%s%s" % (lab, ("." + fld) if fld else "")
+                if w == sw.TOP:
+                    S.bad("U7", "not-shift-affine", name, "%s does not react to a shift of all prices by a plain multiple of the shift: %s" % (name, why))
+                elif w != exp:
+                    S.bad("U7", "shift-weight", name, "%s moves by %s x the shift; documented: %s" % (name, w, "moves with the prices" if exp else "unchanged"))
+                else:
+                    S.ok("U7", "%s: shift weight %s" % (name, w))
+
+
 def run(tier, repo=None, tag="repo"):
     rep = Report("C14", tier)
     rep.rule("U2", "dimension inference: every +, -, comparison, max, conditional and store relates values of one dimension; non-zero literals only in dimensionless positions", 21)
@@ -423,13 +467,15 @@ def run(tier, repo=None, tag="repo"):
     rep.rule("U4", "RSI's only inhomogeneity is its documented 0.1 seed (built-in positive control)", 1)
     rep.rule("U5", "Maximum(x) = -Minimum(-x): each equals its window-extreme specification (else: Maximum's functions are mirror images of Minimum's under {< <-> >, +inf <-> -inf, high <-> low})", 1)
     rep.rule("U6", "no f32 anywhere", 1)
+    rep.rule("U7", "shift clause: adding a constant to every price moves SMA/EMA/WMA/Minimum/Maximum and the Bollinger/Keltner/Chandelier levels by it and leaves SD, MAD, TrueRange, ATR, MACD, FastStochastic unchanged (shift weights over modular terms; leaf indicators by their window invariants / EMA convexity)", 20)
     F = ir.load("default", repo, tag)
     apply(F, Sink(rep))
+    shift_clause(F, rep)
     rep.configs = ["default"]
     rep.functions.update(f.path for f in F.fns if f.trait_short in ("Next", "Reset") or f.name == "new")
     rep.explanation = ("units-of-measure soundness: if every +, -, comparison, max and conditional relates values of equal degree in (price, volume), */ add/subtract degrees, "
                        "sqrt halves and the only constants in degree != 0 positions are 0 and +-inf, then scaling all prices by c > 0 scales every value of degree d by c^d "
                        "and leaves every comparison unchanged - exactly for powers of two. Degrees are inferred by unification over the fully inlined gated terms (per field path). "
-                       "NOT decided: the shift clause (needs the affine weight of running sums)")
-    rep.assumptions = ["no overflow/underflow under the scaling", "the shift clause of C14 is not decided"]
+                       "The shift clause is decided by shift weights over the modular terms of the composites, with the leaf indicators' behaviour taken from their window invariants (U7)")
+    rep.assumptions = ["no overflow/underflow under the scaling", "shift clause: real arithmetic (the property grants rounding); the shift keeps prices positive"]
     return rep
